@@ -256,18 +256,20 @@ Definition norm_bound (n : Z) (o : option Z) (dflt : Z) : Z :=
 Definition norm_slice (n : Z) (ix : option Z * option Z) : Z * Z :=
   let s := norm_bound n (fst ix) 0 in (s, Z.max s (norm_bound n (snd ix) n)).
 
-(* first while loop: returns remaining chunks, start, stop, shape, offset.  `start_chunk < len(chunks[axis]) - 1`:
+(* The two drop conditions cs_prune_front_drops / cs_prune_back_drops are re-translated from the while conditions of the
+   source at every run (translator item item_prune_and_shims, which pins the rest of the body).
+   first while loop: returns remaining chunks, start, stop, shape, offset.  `start_chunk < len(chunks[axis]) - 1`:
    the last remaining chunk is never dropped (katdal fix d72167c, finding C07-F2) *)
 Fixpoint drop_front (cs : list Z) (start stop shape off : Z) : list Z * (Z * Z * Z * Z) :=
   match cs with
-  | c :: ((_ :: _) as t) => if c <=? start then drop_front t (start - c) (stop - c) (shape - c) (off + c)
+  | c :: ((_ :: _) as t) => if cs_prune_front_drops c start then drop_front t (start - c) (stop - c) (shape - c) (off + c)
                             else (cs, (start, stop, shape, off))
   | _ => (cs, (start, stop, shape, off))
   end.
 (* second while loop, on the reversed list; `stop_chunk > start_chunk + 1`: at least one chunk is retained *)
 Fixpoint drop_back (rcs : list Z) (stop shape : Z) : list Z :=
   match rcs with
-  | c :: ((_ :: _) as t) => if c <=? shape - stop then drop_back t stop (shape - c) else rcs
+  | c :: ((_ :: _) as t) => if cs_prune_back_drops c shape stop then drop_back t stop (shape - c) else rcs
   | _ => rcs
   end.
 
